@@ -137,6 +137,21 @@ func (fx *FuncExec) oblige(kind string, st *State, goal string, desc string, pos
 			return
 		}
 	}
+	if fx.fc != nil && len(fx.fc.CheckOnly) > 0 && (kind == "index" || kind == "slice") {
+		// `check-only a, b`: bounds obligations only for indexing/slicing of the named variables
+		// (typically the input the function scans), not of auxiliary tables
+		ok := false
+		if b := indexedBase(fx.curInstr); b != "" {
+			for _, n := range fx.fc.CheckOnly {
+				if n == b {
+					ok = true
+				}
+			}
+		}
+		if !ok {
+			return
+		}
+	}
 	fx.counts[kind]++
 	ob := &Obligation{Kind: kind, Func: fx.relName(), Desc: desc, Safety: safetyKinds[kind],
 		prefix: len(fx.em.lines), pc: st.pc, goal: goal}
@@ -202,6 +217,36 @@ func (fx *FuncExec) obligeClause(kind string, st *State, env *SpecEnv, c Clause,
 	if ok {
 		fx.oblige(kind, st, goal, desc, pos)
 	}
+}
+
+// indexedBase names the variable an index/slice instruction operates on ("" if it is not a plain
+// local, parameter or captured variable).
+func indexedBase(in ssa.Instruction) string {
+	var x ssa.Value
+	switch t := in.(type) {
+	case *ssa.IndexAddr:
+		x = t.X
+	case *ssa.Index:
+		x = t.X
+	case *ssa.Slice:
+		x = t.X
+	case *ssa.Lookup:
+		x = t.X
+	default:
+		return ""
+	}
+	if u, ok := x.(*ssa.UnOp); ok {
+		x = u.X
+	}
+	switch t := x.(type) {
+	case *ssa.Alloc:
+		return t.Comment
+	case *ssa.Parameter:
+		return t.Name()
+	case *ssa.FreeVar:
+		return t.Name()
+	}
+	return ""
 }
 
 func (fx *FuncExec) assume(st *State, fact string) {
@@ -2094,7 +2139,7 @@ func (fx *FuncExec) afterStore(st *State, x *ssa.Store) {
 		return
 	}
 	for _, ss := range fx.fc.Stores {
-		if ss.Callee == name && ss.Ordinal == fx.storeOrd[x] {
+		if ss.Callee == name && (ss.Ordinal == fx.storeOrd[x] || ss.Ordinal == -1) {
 			env := fx.specEnv(st, fx.entry)
 			fx.withLoop(env, st)
 			for _, a := range ss.Asserts {
